@@ -424,6 +424,13 @@ func ReportLockstep(r *runner.Run, spec LockSpec, res *LockResult) {
 		r.Add("outcome:"+k, v)
 		r.Distinct("outcome:" + k)
 	}
+	for _, h := range res.SampleHists {
+		txt := make([]string, len(h))
+		for i, o := range h {
+			txt[i] = o.String()
+		}
+		r.Sample(map[string]any{"run": label, "history": txt})
+	}
 	for _, v := range res.Violations {
 		v := v
 		hist := make([]string, len(v.Hist))
